@@ -9,7 +9,8 @@ rule = ("SMA, WMA, SD, BB, MAD, MIN, MAX (scalar streams) and CCI, MFI (bar stre
         "up to 1000 and 2*10^6 inputs (thorough), no reset. At ~40 checkpoints and at the end: bit-exact equality with the float model, "
         "equality of a rolling hash over ALL outputs, and agreement within tau+(t)*maxmag with a fresh exact-rational instance fed only "
         "the current window (from-scratch value). Plus the K7 adversary for WMA (known finding). Non-trivial: distinct case (all are longer "
-        "than 100 periods)")
+        "than 100 periods). Plus (quick tier) nine 140000-input streams (code that runs every 2^16 updates), and 600-input streams on the plateau / "
+        "almost-flat / flat / alternating regimes compared with the exact window value at EVERY step (tau is tightest early)")
 assumptions = ["the twin generators use only exact int->float conversions and correctly rounded + - * /; their agreement is itself checked "
                "(a mismatch would show as a T1 failure)",
                "from-scratch value = fresh exact instance on the last period+1 inputs (justified by the finite-memory theorems of C17)"]
